@@ -87,6 +87,7 @@ structure AFn where
   mods : Mods
   isDef : Bool
   calls : List ACall
+  nargs : Nat := 0          -- number of parameters
   deriving Repr
 
 structure AInh where
@@ -159,6 +160,7 @@ def resolveSuper (g : AGraph) (p : Nat) (parent : Option String) (fn : String) :
 inductive Ev where
   | call (origin oid fn : String)
   | run (file fn : String) (old : Int)
+  | args (vs : List Int)                  -- what a function with parameters found in them
   | err
   | ret (v : String)
   | vars (oid : String) (vs : List Int)
@@ -167,6 +169,7 @@ inductive Ev where
 def Ev.show : Ev → String
   | .call o oid fn => s!"call {o} {oid} {fn}"
   | .run f n old => s!"run {f}:{n} {old}"
+  | .args vs => vs.foldl (fun s v => s ++ " " ++ toString v) "args"
   | .err => "err <runtime error>"
   | .ret v => s!"ret {v}"
   | .vars oid vs => vs.foldl (fun s v => s ++ " " ++ toString v) s!"vars {oid}"
@@ -174,21 +177,35 @@ def Ev.show : Ev → String
 def digitsOf (s : String) : Nat := ((String.ofList (s.toList.filter Char.isDigit)).toNat?).getD 0
 def codeOf (file fn : String) : Int := Int.ofNat ((digitsOf file + 1) * 100 + digitsOf fn)
 
+/-- the number of parameters of a generated function is a function of its name: fK has K mod 3 parameters -/
+def arityOf (fn : String) : Nat := if fn.startsWith "f" then digitsOf fn % 3 else 0
+
+/-- what the callee must see: its parameters hold the first arguments, in order; parameters without an argument
+    hold 0; surplus arguments are dropped -/
+def seenArgs (actual : List Int) (arity : Nat) : List Int :=
+  (List.range arity).map (fun i => actual.getD i 0)
+
+/-- the arguments the generated bodies pass: local / `::` calls and calls inside functionals (11, 12, as many as the
+    callee has parameters), function pointers (21, 22, 23, whatever the callee takes) -/
+def localArgs : List Int := [11, 12]
+def fpArgs : List Int := [21, 22, 23]
+
 structure Run where
   vars : List Int
   evs : List Ev       -- newest first
   ok : Bool
 
 /-- run the body of `fn` as defined in the program at the end of `path` (from the object's program T) -/
-def runFn (g : AGraph) (T : Nat) : Nat → List Nat → String → List Int → List Ev → Run
-  | 0, _, _, vars, evs => { vars, evs, ok := false }
-  | fuel + 1, path, fn, vars, evs =>
+def runFn (g : AGraph) (T : Nat) : Nat → List Nat → String → List Int → List Int → List Ev → Run
+  | 0, _, _, _, vars, evs => { vars, evs, ok := false }
+  | fuel + 1, path, fn, actual, vars, evs =>
     let p := endOf g T path
     match g[p]?.bind (fun P => (P.fns.find? (fun f => f.name == fn && f.isDef)).map (fun f => (P, f))) with
     | none => { vars, evs := .err :: evs, ok := false }
     | some (P, f) =>
       let vi := varIndex g T path
       let evs := Ev.run P.name fn (vars.getD vi 0) :: evs
+      let evs := if f.nargs > 0 then Ev.args (seenArgs actual f.nargs) :: evs else evs
       let vars := vars.set vi (codeOf P.name fn)
       let vars := if P.hasW then vars.set (vi + 1) (codeOf P.name fn + 5000) else vars
       f.calls.foldl (fun (r : Run) c =>
@@ -199,7 +216,9 @@ def runFn (g : AGraph) (T : Nat) : Nat → List Nat → String → List Int → 
           | .sup par n => (resolveSuper g p par n).map (fun pth => (path ++ pth, n))
         match target with
         | none => { r with evs := .err :: r.evs, ok := false }
-        | some (pth, n) => runFn g T fuel pth n r.vars r.evs) { vars, evs, ok := true }
+        | some (pth, n) =>
+          let a := match c with | .fp _ => fpArgs | _ => localArgs
+          runFn g T fuel pth n a r.vars r.evs) { vars, evs, ok := true }
 
 /-- one object per program file; labels of the case name them -/
 structure SObj where
@@ -237,7 +256,7 @@ inductive Outcome where
   | noobj
   deriving Repr, BEq
 
-def callOn (g : AGraph) (s : SSt) (c : Caller) (p : Nat) (fn : String) : Outcome × SSt :=
+def callOn (g : AGraph) (s : SSt) (c : Caller) (p : Nat) (fn : String) (args : List Int := []) : Outcome × SSt :=
   match s.obj? p with
   | none => (.noobj, s)
   | some ob =>
@@ -246,7 +265,7 @@ def callOn (g : AGraph) (s : SSt) (c : Caller) (p : Nat) (fn : String) : Outcome
     | some path =>
       if !(allowed c (effMods g fn p path)) then (.absent, s)
       else
-        let r := runFn g p 64 path fn ob.vars s.evs
+        let r := runFn g p 64 path fn args ob.vars s.evs
         let s := { (s.setVars p r.vars) with evs := r.evs }
         let defProg := ((g[endOf g p path]?).map (·.name)).getD "?"
         (if r.ok then .ran s!"\"{defProg}:{fn}\"" else .failed, s)
@@ -283,7 +302,7 @@ def SSt.progOf (g : AGraph) (s : SSt) : STarget → Option Nat
   | .other => none
 
 /-- expected events of `call <origin> <oid> <fn>` (single object target) -/
-def specCall (g : AGraph) (s : SSt) (origin oid fn : String) : SSt :=
+def specCall (g : AGraph) (s : SSt) (origin oid fn : String) (args : List Int := []) : SSt :=
   let s := s.emit (.call origin oid fn)
   match (s.labels.find? (·.1 == oid)).map (·.2) with
   | none => s.emit (.ret "!noobj")
@@ -291,7 +310,7 @@ def specCall (g : AGraph) (s : SSt) (origin oid fn : String) : SSt :=
     -- the heart beat is not a call by a name the caller chooses: the driver runs the object's `heart_beat`, if any
     let fn' := if origin == "hb" then "heart_beat" else fn
     let quiet := if origin == "hb" then some "ticked" else if origin == "rco" then some "swept" else none
-    let (o, s) := callOn g s (callerOf origin) p fn'
+    let (o, s) := callOn g s (callerOf origin) p fn' args
     let txt := match quiet, o with
       | some q, _ => q
       | none, .absent => "!no"
